@@ -121,7 +121,11 @@ fn gen_cfg(gen: &mut SplitMix64, i: usize, thorough: bool) -> Cfg {
     let nmax = if thorough { 8 } else { 6 };
     let n = 2 + gen.below(nmax - 1) as usize;
     let shape = graph_shape(gen.next(), n);
-    let js = [-2.0, -1.5, -1.0, -0.5, 0.5, 1.0, 1.5, 2.0];
+    // one configuration in three uses couplings that are NOT dyadic (0.3, 0.7, 1.1): sums of such weights are inexact, so
+    // running totals (BondContainer.total_weight, heat-bath tables) carry rounding residues — state a snapshot must either
+    // carry or never need.  Fine for this oracle (implementation vs implementation); never used in a model comparison.
+    let nd = i >= 8 && i % 3 == 2;
+    let js: [f64; 8] = if nd { [-1.1, -0.7, -0.3, 0.3, 0.3, 0.7, 0.7, 1.1] } else { [-2.0, -1.5, -1.0, -0.5, 0.5, 1.0, 1.5, 2.0] };
     let uniform_j = gen.coin();
     let j0 = *gen.pick(&js);
     let edges = shape
@@ -134,10 +138,11 @@ fn gen_cfg(gen: &mut SplitMix64, i: usize, thorough: bool) -> Cfg {
     } else {
         (gen.coin(), gen.coin(), gen.coin())
     };
+    let rvb = rvb || nd;
     let hs = [-1.0, -0.5, -0.25, 0.25, 0.5, 1.0];
     Cfg {
         edges,
-        transverse: *gen.pick(&[0.25, 0.5, 1.0, 1.5]),
+        transverse: if nd { *gen.pick(&[0.3, 1.0, 0.7]) } else { *gen.pick(&[0.25, 0.5, 1.0, 1.5]) },
         longitudinal: if field { *gen.pick(&hs) } else { 0.0 },
         beta: *gen.pick(&[0.5, 1.0, 2.0, 4.0]),
         cutoff: *gen.pick(&[1usize, 2, 3, n, 4 * n]),
@@ -272,6 +277,35 @@ fn rt_rngless(g: G) -> Result<G, String> {
     Ok(sg2.into_qmc(rng))
 }
 
+
+// ------------------------------------------------------------------------------------------------
+// hidden state outside the snapshot: the pooled scratch instances.  A snapshot stores only the pool SIZES, a restored
+// sampler gets fresh `Default` instances — so every instance handed back to a pool must be observably `Default`
+// (allocator hook, `--cfg qmc_verif`: the `clean` flag of a return event is `verif_is_clean()` after `reset()`;
+// BondContainer: no keys, total_weight == 0 exactly, nothing mapped).
+// ------------------------------------------------------------------------------------------------
+fn pool_reset_log() {
+    let _ = qmc::util::allocator::verif_log::take();
+}
+
+/// Err if any instance was returned dirty since the last call (also keeps the thread-local log short).
+fn pool_check(when: &str) -> Result<(), String> {
+    let log = qmc::util::allocator::verif_log::take();
+    let returns = log.iter().filter(|e| e.1 == -1).count();
+    POOL_RETURNS.with(|c| c.set(c.get() + returns as u64));
+    match log.iter().find(|e| e.1 == -1 && !e.2) {
+        None => Ok(()),
+        Some((ty, _, _, left)) => Err(format!(
+            "{}: a pooled scratch instance of type {} was handed back NOT in its reset state (pool then held {}); the snapshot stores only the pool size, so this state is lost by a restore",
+            when, ty, left
+        )),
+    }
+}
+
+thread_local! {
+    static POOL_RETURNS: std::cell::Cell<u64> = std::cell::Cell::new(0);
+}
+
 fn run_steps(g: &mut G, k: usize, beta: f64) {
     for _ in 0..k {
         g.timesteps(1, beta);
@@ -291,7 +325,9 @@ fn lockstep_ising(cfg: &Cfg, k: usize, m: usize) -> Result<Summary, String> {
         run_steps(&mut g, k, cfg.beta);
         g
     };
+    pool_reset_log();
     let mut orig = fresh(k);
+    pool_check(&format!("steps 1..{}", k))?;
     let at_k = obs_ising(&orig, 0.0);
     let mut a = rt_with_rng(&orig).map_err(|e| format!("form a: {}", e))?;
     let mut b = rt_rngless(fresh(k)).map_err(|e| format!("form b: {}", e))?;
@@ -307,6 +343,7 @@ fn lockstep_ising(cfg: &Cfg, k: usize, m: usize) -> Result<Summary, String> {
         let ea = a.timesteps(1, cfg.beta);
         let eb = b.timesteps(1, cfg.beta);
         let ec = c.timesteps(1, cfg.beta);
+        pool_check(&format!("step k+{} (k={})", s, k))?;
         let oo = obs_ising(&orig, eo);
         grew |= oo.cutoff != at_k.cutoff;
         for (name, x, e) in [("a", &a, ea), ("b", &b, eb), ("c", &c, ec)] {
@@ -327,6 +364,77 @@ fn lockstep_ising(cfg: &Cfg, k: usize, m: usize) -> Result<Summary, String> {
         grew,
         rvb_succ: v["total_rvb_successes"].as_u64().unwrap_or(0) > 0,
     })
+}
+
+
+// ------------------------------------------------------------------------------------------------
+// non-dyadic couplings + RVB on small frustrated graphs, SmallRng (the RNG of the two regression inputs), RNG-less form
+// ------------------------------------------------------------------------------------------------
+type GS = QmcIsingGraph<rand::rngs::SmallRng, FastOps>;
+
+fn nd_edges(kind: usize) -> Vec<((usize, usize), f64)> {
+    match kind {
+        0 => vec![((0, 1), 0.3), ((1, 2), 0.3), ((2, 0), 0.3), ((2, 3), 0.3), ((3, 0), 0.3)],
+        1 => vec![((0, 1), 0.3), ((1, 2), 0.7), ((2, 0), 1.1), ((2, 3), 0.3), ((3, 0), 0.7), ((1, 3), 1.1)],
+        2 => vec![((0, 1), 0.7), ((1, 2), -0.3), ((2, 0), 1.1), ((2, 3), 0.7), ((3, 4), 0.3), ((4, 0), 1.1), ((1, 3), 0.3)],
+        _ => vec![((0, 1), 1.1), ((1, 2), 1.1), ((2, 0), 1.1)],
+    }
+}
+
+fn nd_make(kind: usize, seed: u64, transverse: f64) -> GS {
+    use rand::SeedableRng;
+    let mut g = GS::new_with_rng(nd_edges(kind), transverse, 0.0, 4, rand::rngs::SmallRng::seed_from_u64(seed), None);
+    g.set_run_rvb(true);
+    g
+}
+
+fn nd_fingerprint(g: &GS) -> String {
+    format!(
+        "{} {} n={} c={} rvb={} ok={}",
+        bits(g.state_ref()),
+        show_slots(g.get_manager_ref()),
+        g.get_n(),
+        g.get_cutoff(),
+        g.rvb_success_rate().to_bits(),
+        g.verify()
+    )
+}
+
+fn nd_restore(g: GS) -> Result<GS, String> {
+    let (sg, rng): (SG, rand::rngs::SmallRng) = g.into();
+    let text = serde_json::to_string(&sg).map_err(|e| e.to_string())?;
+    let sg2: SG = serde_json::from_str(&text).map_err(|e| e.to_string())?;
+    if serde_json::to_string(&sg2).map_err(|e| e.to_string())? != text {
+        return Err("RNG-less snapshot does not re-serialise to the same JSON".into());
+    }
+    Ok(sg2.into_qmc(rng))
+}
+
+/// snapshot after step k (RNG-less form, same RNG re-attached), then m further steps in lock-step with the
+/// uninterrupted run; pooled instances must be in their reset state after every step
+fn lockstep_nd(kind: usize, transverse: f64, beta: f64, seed: u64, k: usize, m: usize) -> Result<bool, String> {
+    pool_reset_log();
+    let mut orig = nd_make(kind, seed, transverse);
+    let mut b = nd_make(kind, seed, transverse);
+    for i in 0..k {
+        orig.timestep(beta);
+        b.timestep(beta);
+        pool_check(&format!("step {}", i + 1))?;
+    }
+    let mut b = nd_restore(b)?;
+    if nd_fingerprint(&orig) != nd_fingerprint(&b) {
+        return Err(format!("right after restore at k={}: {} vs {}", k, nd_fingerprint(&orig), nd_fingerprint(&b)));
+    }
+    for s in 1..=m {
+        orig.timestep(beta);
+        b.timestep(beta);
+        pool_check(&format!("step k+{} (k={})", s, k))?;
+        let (fo, fb) = (nd_fingerprint(&orig), nd_fingerprint(&b));
+        if fo != fb {
+            return Err(format!("snapshot k={} step k+{}: {} vs {}", k, s, fo, fb));
+        }
+    }
+    Ok(orig.get_n() > 0)
 }
 
 // ------------------------------------------------------------------------------------------------
@@ -367,10 +475,12 @@ fn obs_generic(q: &Q, energy: f64) -> Obs {
 }
 
 fn lockstep_generic(cfg: &Cfg, loops: bool, k: usize, m: usize) -> Result<Summary, String> {
+    pool_reset_log();
     let mut orig = build_generic(cfg, loops);
     for _ in 0..k {
         orig.timesteps(1, cfg.beta);
     }
+    pool_check(&format!("steps 1..{}", k))?;
     let at_k = obs_generic(&orig, 0.0);
     let rt = |q: &Q| -> Result<Q, String> {
         let text = serde_json::to_string(q).map_err(|e| e.to_string())?;
@@ -386,6 +496,7 @@ fn lockstep_generic(cfg: &Cfg, loops: bool, k: usize, m: usize) -> Result<Summar
         let eo = orig.timesteps(1, cfg.beta);
         let ea = a.timesteps(1, cfg.beta);
         let ec = c.timesteps(1, cfg.beta);
+        pool_check(&format!("step k+{} (k={})", s, k))?;
         let oo = obs_generic(&orig, eo);
         grew |= oo.cutoff != at_k.cutoff;
         for (name, x, e) in [("a", &a, ea), ("c", &c, ec)] {
@@ -527,7 +638,9 @@ fn lockstep_temper(cfg: &TCfg, k: usize, m: usize) -> Result<(bool, u64, bool), 
         }
         tc
     };
+    pool_reset_log();
     let mut orig = fresh(k);
+    pool_check(&format!("tempering history up to k={}", k))?;
     let swaps_at_k = orig.get_total_swaps();
     let mut a = tc_rt_with_rng(&orig).map_err(|e| format!("form a: {}", e))?;
     let mut b = tc_rt_rngless(fresh(k)).map_err(|e| format!("form b: {}", e))?;
@@ -564,6 +677,7 @@ fn lockstep_temper(cfg: &TCfg, k: usize, m: usize) -> Result<(bool, u64, bool), 
                     .join(";"),
             }
         };
+        pool_check(&format!("tempering op k+{} (k={})", s, k))?;
         let oo = obs_tc(&orig, false);
         for (name, x, r) in [("a", &a, &ra), ("b", &b, &rb), ("c", &c, &rc)] {
             if enc(&ro) != enc(r) {
@@ -656,7 +770,9 @@ fn lockstep_grow(cfg: &TCfg, ops: &[GrowOp], k: usize, m: usize) -> Result<(bool
         }
         tc
     };
+    pool_reset_log();
     let mut orig = fresh();
+    pool_check(&format!("growing history up to op {}", k))?;
     let mut a = tc_rt_with_rng(&orig).map_err(|e| format!("form a: {}", e))?;
     let mut b = tc_rt_rngless(fresh()).map_err(|e| format!("form b: {}", e))?;
     let mut c = fresh();
@@ -674,6 +790,7 @@ fn lockstep_grow(cfg: &TCfg, ops: &[GrowOp], k: usize, m: usize) -> Result<(bool
         for tc in [&mut orig, &mut a, &mut b, &mut c] {
             apply_op(cfg, tc, *op);
         }
+        pool_check(&format!("growing history op {}+{}", k, s + 1))?;
         let rebuilt = *op == GrowOp::Step && orig.graph_ref().len() >= 2;
         let reset = matches!(op, GrowOp::Add(_));
         b_caches_known = b_caches_known || rebuilt || reset;
@@ -894,4 +1011,45 @@ fn main() {
     stat("temper_grow.configs", ngrow);
     stat("temper_grow.cases", grow_cases);
     stat("temper_grow.max_total_swaps", grow_swaps);
+
+    // fixed regression inputs (fourth-round seed: residue in a pooled BondContainer) + a grid around them: every k
+    for (kind, gamma, beta, seed, k) in [(1usize, 0.3, 2.0, 27u64, 18usize), (0, 1.0, 0.5, 28, 48)] {
+        let r = catch(|| lockstep_nd(kind, gamma, beta, seed, k, 40));
+        let (nt, verdict) = match r {
+            Ok(Ok(nt)) => (nt, Ok(())),
+            Ok(Err(e)) => (true, Err(e)),
+            Err(p) => (true, Err(format!("panic: {}", p))),
+        };
+        let out = if verdict.is_ok() { "same" } else { "diff" };
+        emit(nt, &format!("ising-nd-fixed kind={} G={} beta={} smallrng_seed={} k={} m=40", kind, rat(gamma), rat(beta), seed, k), out, Some(verdict));
+    }
+    let (nd_seeds, nd_k, nd_m) = if a.thorough { (24u64, 60usize, 16usize) } else { (6, 50, 12) };
+    let mut nd_cases = 0u64;
+    for kind in 0..4usize {
+        for (gamma, beta) in [(0.3, 2.0), (1.0, 0.5), (0.7, 1.0)] {
+            for sd in 0..nd_seeds {
+                let seed = 25 + sd; // includes 27 and 28
+                let mut verdict = Ok(());
+                let mut nt = false;
+                for k in 0..=nd_k {
+                    match catch(|| lockstep_nd(kind, gamma, beta, seed, k, nd_m)) {
+                        Ok(Ok(x)) => nt |= x,
+                        Ok(Err(e)) => {
+                            verdict = Err(e);
+                            break;
+                        }
+                        Err(p) => {
+                            verdict = Err(format!("k={}: panic: {}", k, p));
+                            break;
+                        }
+                    }
+                    nd_cases += 1;
+                }
+                let out = if verdict.is_ok() { "same" } else { "diff" };
+                emit(nt || verdict.is_err(), &format!("ising-nd kind={} G={} beta={} smallrng_seed={} k=0..{} m={}", kind, rat(gamma), rat(beta), seed, nd_k, nd_m), out, Some(verdict));
+            }
+        }
+    }
+    stat("ising_nd.snapshot_points", nd_cases);
+    stat("pool.return_events_checked_clean", POOL_RETURNS.with(|c| c.get()));
 }
